@@ -75,7 +75,7 @@ GRAD = ["euler_1d", "euler_2d", "euler_3d", "navierstokes_2d_compressible", "nav
 COST = {"navierstokes_4d_compressible_powerlaw": 40, "fans_sa_transient_free_shear": 8, "fans_sa_steady_wall_bounded": 6, "navierstokes_3d_compressible": 4,
         "axi_cns_transient": 3, "axisymmetric_navierstokes_compressible": 3, "euler_transient_3d": 3, "euler_3d": 2, "navierstokes_2d_compressible": 2}
 # C09 constants: see DESIGN sec. 5 (calibration); library flavour "plain" (-O0) and "opt" (-O2)
-K_D, K_L = 4, 4
+K_D, K_L = 8, 8
 
 
 def pde_exe(flavour="plain"):
